@@ -288,3 +288,108 @@ def exact_leaf_points(res, points, label, kind_on_mismatch="correspondence", drv
                      "(192-bit floats): %.17g vs %.17g (rel %.3g)" % (label, fn, x, t, float(xv), float(yv), d), item)
     res.maxstat("exact_worst_relative_deviation_leaf", worst)
     return worst
+
+
+# ------------------------------------------------------------------------------------------------ leagues
+def exact_leagues(res, rng, n, label="league (exact)", drv=None):
+    """short leagues with the rating values fed back from game to game, ONE tape per league: the composition load / rate /
+    write back of the code against the Lean league machine `playLeague`, both on 192-bit floats.  The model kind changes
+    from game to game (one model object per kind, same parameters)."""
+    import random as _random
+    from gen import gen_config, encode_ranks
+    drv = drv or core.Driver()
+    lines, metas = [], []
+    for _ in range(n):
+        beta, kappa, tau = gen_config(rng, default_bias=0.6)
+        ls = rng.random() < 0.3
+        sc = beta / core.DEFAULTS["beta"]
+        npl = rng.randint(4, 8)
+        init = [(rng.gauss(25, 8) * sc, rng.uniform(1, 9) * sc) for _ in range(npl)]
+        ng = rng.randint(2, 5)
+        plan = []
+        for _g in range(ng):
+            kind = rng.choice(KINDS)
+            nt = rng.randint(2, min(4, npl // 2))
+            ids = rng.sample(range(npl), rng.randint(nt, min(npl, 2 * nt)))
+            tid = [[] for _ in range(nt)]
+            for k, pid in enumerate(ids):
+                tid[k % nt].append(pid)
+            dense = [rng.randint(0, nt - 1) for _ in range(nt)]
+            mode = rng.choice(["R", "S", "N"])
+            vals = encode_ranks(rng, dense, rng.choice(["int", "float", "frac"])) if mode != "N" else None
+            tauopt = None if rng.random() < 0.6 else rng.choice([0.0, beta / 10])
+            lsopt = None if rng.random() < 0.7 else (rng.random() < 0.5)
+            plan.append((kind, tid, mode, vals, tauopt, lsopt))
+        toks = [f2h(beta), f2h(kappa), f2h(tau), "1" if ls else "0", "D", f2h(0.0), str(npl)]
+        for (m, s_) in init:
+            toks += [f2h(m), f2h(s_)]
+        toks.append(str(ng))
+        for (kind, tid, mode, vals, tauopt, lsopt) in plan:
+            toks += [kind, "-" if tauopt is None else f2h(tauopt), "-" if lsopt is None else ("1" if lsopt else "0"), mode,
+                     str(len(tid))] + [str(len(t)) for t in tid] + [str(p) for t in tid for p in t]
+            if vals is not None:
+                toks += [core.num_token(v) for v in vals]
+        status = "OK"
+        with tracing(traced_modules()) as tape:
+            try:
+                models = {k: MODEL_CLS[k](beta=inp(tape, beta), kappa=inp(tape, kappa), tau=inp(tape, tau), limit_sigma=ls) for k in KINDS}
+                pool = [(inp(tape, m), inp(tape, s_)) for (m, s_) in init]
+                for (kind, tid, mode, vals, tauopt, lsopt) in plan:
+                    RC = core.RATING_CLS[kind]
+                    teams = [[RC(pool[p][0], pool[p][1]) for p in t] for t in tid]
+                    kw = {}
+                    if mode != "N":
+                        kw["ranks" if mode == "R" else "scores"] = list(vals)
+                    if tauopt is not None:
+                        kw["tau"] = inp(tape, tauopt)
+                    if lsopt is not None:
+                        kw["limit_sigma"] = lsopt
+                    out = models[kind].rate(teams, **kw)
+                    for t, to in zip(tid, out):
+                        for pid, pl in zip(t, to):
+                            pool[pid] = (pl.mu, pl.sigma)
+            except Exception as e:  # noqa: BLE001
+                status = "EXC_" + type(e).__name__
+            outs = []
+            if status == "OK":
+                for (m, s_) in pool:
+                    a, _ = out_id(tape, m)
+                    b, _ = out_id(tape, s_)
+                    if a is None or b is None:
+                        status = "NONNUM"
+                        break
+                    outs += [a, b]
+            line = xeval_line(tape, outs) if status == "OK" else None
+            untraced = tape.untraced
+        res.count("exact_league_status_" + status)
+        if status != "OK":
+            continue
+        lines += [line, "LEAGUEX " + " ".join(toks)]
+        metas.append((beta, init, ng, untraced, " ".join(toks)))
+    out = drv.run(lines)
+    worst = 0.0
+    for i, (beta, init, ng, untraced, toks) in enumerate(metas):
+        a, b = out[2 * i].split(" "), out[2 * i + 1].split(" ")
+        item = dict(type="league", line=toks)
+        if a[0] != "OK" or b[0] != "OK":
+            res.fail("correspondence", "%s: exact evaluation failed: %s / %s" % (label, " ".join(a)[:80], " ".join(b)[:80]), item)
+            continue
+        res.count("exact_leagues")
+        res.count("exact_league_games", ng)
+        if int(a[1]):
+            res.count("exact_knife_edge_skipped")
+            continue
+        vals = [parse_bf(x) for x in a[2:]]
+        want = [tuple(parse_bf(y) for y in tok.split(":")) for tok in b[1:] if tok]
+        for pid, (wm, ws) in enumerate(want):
+            im, isg = vals[2 * pid], vals[2 * pid + 1]
+            dm = rel_dev(im, wm, max(abs(wm), Fraction(beta)))
+            ds = rel_dev(isg, ws, max(abs(ws), Fraction(1, 10 ** 300)))
+            worst = max(worst, dm, ds)
+            if dm > EXACT_TOL or ds > EXACT_TOL:
+                res.fail("correspondence", "%s: after %d fed-back games player %d holds (%.17g, %.17g) by the formula the code evaluates, "
+                         "(%.17g, %.17g) on the Lean league machine (both on 192-bit floats; rel %.3g / %.3g)"
+                         % (label, ng, pid, float(im), float(isg), float(wm), float(ws), dm, ds), item)
+                break
+    res.maxstat("exact_worst_relative_deviation_league", worst)
+    return worst
